@@ -16,10 +16,20 @@ fate_atom = st.one_of(
 
 @st.composite
 def fate_list(draw, max_segments=12, loss_bias=False):
+    if loss_bias and draw(st.integers(0, 3)) == 0:
+        # a uniformly bad network: every datagram independently lost / duplicated / delayed
+        lose, dup, late = draw(st.sampled_from([(3, 1, 2), (3, 1, 1), (5, 0, 1), (2, 2, 2), (1, 1, 4)]))
+        pool = [["x"]] * lose + [["2", 0, 3], ["2", 5, 0], ["2", 0, 6]][:dup] + [["d", 2], ["d", 4], ["d", 6], ["d", 7]][:late]
+        pool += [["d", 0]] * (10 - len(pool))
+        return draw(st.lists(st.sampled_from(pool), min_size=20, max_size=250))
     out = []
     for _ in range(draw(st.integers(0, max_segments))):
-        kind = draw(st.sampled_from(["ok", "ok", "dropburst", "mix", "mix", "isolated"] + (["dropburst", "isolated"] if loss_bias else [])))
-        if kind == "ok":
+        kind = draw(st.sampled_from(["ok", "ok", "dropburst", "mix", "mix", "isolated"] + (["dropburst", "isolated", "storm"] if loss_bias else [])))
+        if kind == "storm":
+            # heavy weather: many losses, delays beyond the retransmission time-out, duplicates
+            out += draw(st.lists(st.sampled_from([["x"], ["x"], ["x"], ["d", 0], ["d", 0], ["d", 6], ["d", 7], ["d", 5], ["2", 0, 6], ["2", 7, 7]]),
+                                 min_size=5, max_size=30))
+        elif kind == "ok":
             out += [["d", 0]] * draw(st.integers(1, 30))
         elif kind == "dropburst":
             out += [["x"]] * draw(st.integers(1, 12))
@@ -57,7 +67,7 @@ def create_op(draw, reliable_only=True, partial_only=False):
 
 @st.composite
 def session_case(draw, tier="quick", reliable_only=True, max_sends=40, loss_bias=False, burst_bias=False,
-                 need_partial=False):
+                 need_partial=False, warmup=False):
     nchan = draw(st.integers(1, 4))
     creates = [draw(create_op(reliable_only=reliable_only)) for _ in range(nchan)]
     if need_partial and all(c["mr"] is None and c["mlt"] is None for c in creates):
@@ -68,10 +78,19 @@ def session_case(draw, tier="quick", reliable_only=True, max_sends=40, loss_bias
     ops += creates[n_before:]
     if draw(st.integers(0, 9)) != 0:
         ops.append({"op": "await_open", "max_ms": 60000})
+    warmed = False
+    if warmup and draw(st.booleans()):
+        warmed = True
+        # fault-free traffic first, so that the congestion window is wide open when the faults begin
+        ch, side = draw(st.integers(0, nchan - 1)), draw(st.integers(0, 1))
+        ops.append({"op": "faults", "on": False})
+        ops += [{"op": "send", "ch": ch, "side": side, "kind": "bytes", "len": 1200, "fill": i, "dt": 0}
+                for i in range(draw(st.integers(10, 50)))]
+        ops.append({"op": "faults", "on": True, "dt": 3000})
     sends = draw(st.lists(send_op(nchan, big=True), min_size=1, max_size=max_sends))
     if burst_bias:
         # a burst several times the congestion window at time offset 0
-        k = draw(st.integers(4, 14))
+        k = draw(st.integers(8, 30)) if warmed else draw(st.integers(4, 14))
         ch, side = draw(st.integers(0, nchan - 1)), draw(st.integers(0, 1))
         sends[0:0] = [{"op": "send", "ch": ch, "side": side, "kind": "bytes", "len": draw(st.sampled_from([1200, 2400, 5000])),
                        "fill": i, "dt": 0} for i in range(k)]
@@ -82,3 +101,31 @@ def session_case(draw, tier="quick", reliable_only=True, max_sends=40, loss_bias
         "ops": ops,
         "fates": [draw(fate_list(loss_bias=loss_bias)), draw(fate_list(loss_bias=loss_bias))],
     }
+
+
+@st.composite
+def rto_window_case(draw, tier="quick"):
+    """Focused schedule space around one retransmission time-out (C02): fault-free warm-up (so cwnd is open and the RTO is
+    at its 1 s floor), then a few chunks whose first transmissions and retransmissions are each lost, delivered, or delayed
+    by about one RTO (0.9 / 1.1 / 1.5 / 2.2 s), acknowledgements mostly intact."""
+    side = draw(st.integers(0, 1))
+    ops = [{"op": "faults", "on": False},
+           {"op": "create", "side": draw(st.integers(0, 1)), "ordered": draw(st.booleans()), "mr": None, "mlt": None, "label": "",
+            "protocol": "", "dt": 0},
+           {"op": "await_open", "max_ms": 60000}]
+    ops += [{"op": "send", "ch": 0, "side": side, "kind": "bytes", "len": 1200, "fill": i, "dt": 0} for i in range(draw(st.integers(8, 20)))]
+    ops.append({"op": "faults", "on": True, "dt": 3000})
+    n = draw(st.integers(2, 6))
+    if draw(st.booleans()):
+        ops.append({"op": "send", "ch": 0, "side": side, "kind": "bytes", "len": 1200 * n, "fill": 1, "dt": 0})
+    else:
+        ops += [{"op": "send", "ch": 0, "side": side, "kind": "bytes", "len": draw(st.sampled_from([1200, 1200, 100, 2400])), "fill": i, "dt": 0}
+                for i in range(n)]
+    if draw(st.integers(0, 2)) == 0:
+        ops.append({"op": "send", "ch": 0, "side": 1 - side, "kind": "bytes", "len": 1200, "fill": 9, "dt": draw(st.sampled_from([0, 500, 1500]))})
+    data_pool = [["x"], ["x"], ["d", 0], ["d", 0], ["d", 8], ["d", 9], ["d", 6], ["d", 10], ["2", 0, 8], ["2", 8, 6]]
+    ack_pool = [["d", 0]] * 7 + [["x"], ["d", 8], ["2", 0, 0]]
+    data_fates = draw(st.lists(st.sampled_from(data_pool), min_size=3, max_size=24))
+    ack_fates = draw(st.lists(st.sampled_from(ack_pool), min_size=0, max_size=24))
+    fates = [data_fates, ack_fates] if side == 0 else [ack_fates, data_fates]
+    return {"client": draw(st.integers(0, 1)), "start_at": 0, "ops": ops, "fates": fates}
